@@ -14,6 +14,7 @@ var Registry = map[string]func(tier, replay string) int{
 	"C13": RunC13,
 	"C14": RunC14,
 	"C15": RunC15,
+	"C16": RunC16,
 	"C18": RunC18,
 	"C19": RunC19,
 }
